@@ -411,21 +411,21 @@ fn raptor_reconstruct(rq: bool, b: u64, l: u64, e: u64, o: &mut Oracle) -> Strin
                 Some(d) => d,
                 None => break,
             };
-            let pkt = flute::core::alc::parse_alc_pkt(&data).map_err(|e| format!("{:?}", e))?;
+            let pkt = flute::core::alc::parse_alc_pkt(&data).map_err(|e| format!("harness: own packet does not parse {:?}", e))?;
             if pkt.lct.toi == 0 {
                 continue;
             }
-            let poti = pkt.oti.as_ref().ok_or("no in-band FTI")?;
+            let poti = pkt.oti.as_ref().ok_or("harness: no in-band FTI")?;
             let dbg = format!("{:?}", poti.scheme_specific);
             let z: u64 = dbg
                 .split("source_blocks_length: ")
                 .nth(1)
                 .and_then(|x| x.split(|c: char| !c.is_ascii_digit()).next())
                 .and_then(|x| x.parse().ok())
-                .ok_or("no Z")?;
+                .ok_or("harness: Debug scrape of source_blocks_length missed")?;
             return Ok((poti.maximum_source_block_length as u64, z));
         }
-        Err("no object packet".into())
+        Err("harness: no object packet".into())
     });
     match r {
         Ok(Ok((b2, z))) => {
@@ -436,10 +436,11 @@ fn raptor_reconstruct(rq: bool, b: u64, l: u64, e: u64, o: &mut Oracle) -> Strin
             }
             format!("ok {} {}", b2, z)
         }
-        // the sender refuses the object (more source blocks than the Z field can carry, block above K_max, ...)
-        Ok(Err(e)) if e.contains("source blocks") || e.contains("incompatible") => "ERR".to_string(),
-        Ok(Err(e)) => format!("ERR {}", e.chars().take(200).collect::<String>().replace(' ', "_")),
-        Err(_) => "SKIP".to_string(), // codec-library panic on this shape: not C07's concern (C08/C04 own it)
+        // the sender refuses the object (more source blocks than the Z field can carry, block above K_max, a Raptor
+        // block of 2 or 3 symbols, ...): the admission model decides which shapes; the error TEXT is not compared
+        Ok(Err(e)) if e.starts_with("harness:") => format!("ERR {}", e.replace(' ', "_")),
+        Ok(Err(_)) => "ERR".to_string(),
+        Err(_) => "PANIC".to_string(),
     }
 }
 
@@ -689,6 +690,22 @@ pub fn run(ctx: &mut Ctx, eng: &mut dyn Engine) {
             }
         }
     }
+    // small blocks, exhaustively: B = 1..5, E = 4, every L up to six full blocks - blocks of 1, 2 and 3 source symbols
+    // (Raptor refuses objects with a block of 2 or 3 symbols, takes 1 and >= 4; RaptorQ takes all)
+    for rq in [true, false] {
+        for b in 1u64..=5 {
+            let e = 4u64;
+            for l in 1..=6 * b * e {
+                let obs = ctx.step(eng, &format!("part {} {} {} {}", if rq { "rq" } else { "rp" }, b, l, e));
+                ctx.evaluations += 1;
+                let q = rfc(b as u128, l as u128, e as u128);
+                if q.3 >= 2 {
+                    ctx.nontrivial(&format!("raptor-small {} {} {} {}", rq, b, l, e));
+                }
+                ctx.count(if obs.starts_with("ok") { "raptor-small-block-ok" } else { "raptor-small-block-refused" });
+            }
+        }
+    }
     for i in 0..ns {
         let rq = rng.bool();
         let e = *rng.pick(&[4u64, 8, 16, 64]);
@@ -697,9 +714,10 @@ pub fn run(ctx: &mut Ctx, eng: &mut dyn Engine) {
             0 => (rng.range(1, 12) * b * e).min(60_000 / (b * e) * (b * e)).max(b * e), // exact multiples of one full block
             _ => rng.range(1, 40 * b * e).min(60_000),
         };
-        // keep every block at k >= 4 symbols (raptor-code rejects smaller blocks: owned by C08) and Z <= 255
+        // Z <= 255 keeps the case cheap; blocks of 1, 2, 3 symbols are included: Raptor refuses 2 and 3 (admission
+        // model, /repo "fix: add_object refuses Raptor blocks of 2 or 3 symbols"), RaptorQ takes them
         let q = rfc(b as u128, l as u128, e as u128);
-        if q.1 < 4 || q.3 > 255 {
+        if q.3 > 255 {
             continue;
         }
         let obs = ctx.step(eng, &format!("part {} {} {} {}", if rq { "rq" } else { "rp" }, b, l, e));
